@@ -97,6 +97,8 @@ def elements(I, s, it):
     if isinstance(it, StructV):
         return None
     N = I.loops.count_of(s, it.seq)
+    if N is not None:
+        N = N - it.pos          # the elements still to come (an iterator built with skip(..) starts further in)
     K = Lin.atom(("k", I.fresh("k")))
     s1 = s.clone()
     s1.pc.append(le(0, K))
